@@ -409,7 +409,9 @@ func httpCmd(out *cq.Out, seed uint64, tier string) {
 	mgmt.Close()
 	n.Close(true)
 	n2, _, err := startNode(nodeOpts{id: 0, name: "h", dir: dir, raftPort: port, bootstrap: false, snapThr: 8192, trailing: 10240})
-	if err != nil {
+	if portTaken(err) {
+		out.Count("http_restart_skipped_infrastructure", 1)
+	} else if err != nil {
 		out.Violate("C11:restart-after-requests-failed", fmt.Sprintf("the node does not restart on its data after the request stream: %v", err), map[string]interface{}{"seed": seed})
 	} else {
 		waitLeader(n2)
